@@ -264,6 +264,34 @@ def bounded(rep, tier):
                 if 'unann' in combo and vars(CA)['u'] is not vars(build().C if nested_mode else build())['u'].__class__ and getattr(vars(CA)['u'], '__wrapped__', None) is not None: fails.append((combo, nested_mode, 'unannotated member was wrapped'))
             except Exception as e:
                 fails.append((combo, nested_mode, f'harness: {type(e).__name__}: {e}'[:200]))
+    # metadata beartype stores in a function's __dict__ must not make ANOTHER function look decorated / introspected: functools.wraps()
+    # copies __dict__ (a method overriding a decorated base method and borrowing its docstring is the common case)
+    import functools
+    try:
+        @beartype
+        class WBase:
+            def m(self, a: int) -> str:
+                """Documented once."""
+                return 'base'
+        @beartype
+        class WChild(WBase):
+            @functools.wraps(WBase.m)
+            def m(self, a: int) -> str: return 'child'
+        cases += 1
+        try: WChild().m('not-int'); fails.append(('wraps', None, 'wraps_marker_leak: a method decorated with functools.wraps(<beartype wrapper>) is taken for an existing beartype wrapper and left unchecked'))
+        except BeartypeCallHintViolation: pass
+        def wbase(a: int) -> int:
+            """Doc."""
+            return a
+        beartype(wbase)
+        @beartype
+        @functools.wraps(wbase, assigned=('__doc__',))
+        def ww(a: int, b: str, *c: int, k: str = 'k', **kw: int): return (a, b, c, k, kw)
+        for label, call in (('b', lambda: ww(1, 2)), ('*c', lambda: ww(1, 's', 'x')), ('k', lambda: ww(1, 's', k=1)), ('**kw', lambda: ww(1, 's', z='s'))):
+            cases += 1
+            try: call(); fails.append(('wraps', None, f'wraps_argslens_leak: parameter {label} of a function that borrowed another function\'s __dict__ through functools.wraps() is unchecked'))
+            except BeartypeCallHintViolation: pass
+    except Exception as e: fails.append(('wraps', None, f'wraps_harness: {type(e).__name__}: {e}'[:200]))
     # identities on plain callables
     def fa(x: int) -> int: return x
     def fu(x): return x
